@@ -59,6 +59,7 @@ def transport_reads(repo: Repo, chk: Check, world: World) -> t.Dict[str, str]:
     """Classify every read on self._sock / self._reader in _rpc._client.  Returns the helpers with the summary
     'fills its view argument completely or raises'."""
     helpers: t.Dict[str, str] = {}
+    REGIONS.clear()
     mod = repo.mod("_rpc._client")
     for f in [x for x in repo.funcs.values() if x.mod is mod]:
         for n in body_nodes(f.node):
@@ -133,8 +134,82 @@ def fill_exact(world: World, f: Func, call: ast.Call) -> str:
     if nret == 0:
         return f"{f.name} has no normal return"
     if v not in f.params:
+        reg = _derived_view(f, v, loop)
+        if reg is not None:
+            REGIONS[f.qual] = reg
+            return f"ok:{f.name}({reg[0]}) fills {reg[0]}[{unparse(reg[1]) if reg[1] is not None else ''}:] completely or raises ({cert[0].why})"
         return "ok:inline read-until-complete loop (EOF raises, exit only when full)"
+    REGIONS[f.qual] = (v, None)
     return f"ok:{f.name}({v}) fills {v} completely or raises ({cert[0].why})"
+
+
+# helper -> (buffer parameter, start offset expression over the helper's parameters or None): the window the helper fills
+REGIONS: t.Dict[str, t.Tuple[str, t.Optional[ast.expr]]] = {}
+
+
+def _derived_view(f: Func, v: str, loop: ast.While) -> t.Optional[t.Tuple[str, t.Optional[ast.expr]]]:
+    """v is a local filled to exhaustion by `loop`.  When its only definition outside the loop is a window of a
+    parameter buffer - memoryview(P), P[a:], memoryview(P)[a:] with `a` a parameter or constant - return (P, a)."""
+    inside = {id(n) for n in ast.walk(loop)}
+    defs = [n for n in body_nodes(f.node) if isinstance(n, (ast.Assign, ast.AnnAssign)) and id(n) not in inside and v in [unparse(x) for x in (n.targets if isinstance(n, ast.Assign) else [n.target])]]
+    if len(defs) != 1 or defs[0].value is None or defs[0] not in f.node.body:
+        return None
+    e: ast.expr = defs[0].value
+    off: t.Optional[ast.expr] = None
+    while True:
+        if isinstance(e, ast.Call) and isinstance(e.func, ast.Name) and e.func.id == "memoryview" and len(e.args) == 1 and not e.keywords:
+            e = e.args[0]
+        elif isinstance(e, ast.Subscript) and isinstance(e.slice, ast.Slice) and e.slice.upper is None and e.slice.step is None and off is None:
+            off = e.slice.lower
+            e = e.value
+        else:
+            break
+    if not (isinstance(e, ast.Name) and e.id in f.params):
+        return None
+    if off is not None and not (isinstance(off, ast.Name) and off.id in f.params or isinstance(off, ast.Constant) and isinstance(off.value, int) and off.value >= 0):
+        return None
+    for n in body_nodes(f.node):
+        if isinstance(n, (ast.Assign, ast.AugAssign, ast.AnnAssign)):
+            for tg in (n.targets if isinstance(n, ast.Assign) else [n.target]):
+                if unparse(tg) in (e.id, unparse(off) if off is not None else ""):
+                    return None  # the buffer / offset parameter is rebound
+    return e.id, off
+
+
+def filled_window(c: t.Any) -> t.Any:
+    """The window of the caller's buffer that the call `c` to a read-until-complete helper fills (SView) or None."""
+    if c.func is None or c.func.qual not in REGIONS:
+        return None
+    bufp, off = REGIONS[c.func.qual]
+    params = [p for p in c.func.params if p != "self"]
+
+    def val(name: str) -> t.Any:
+        v = c.arg(params.index(name), name)
+        if v is None:
+            a = c.func.node.args
+            pos = list(a.posonlyargs) + list(a.args)
+            names = [x.arg for x in pos]
+            d = dict(zip(names[len(names) - len(a.defaults):], a.defaults))
+            dv = d.get(name)
+            if isinstance(dv, ast.Constant) and isinstance(dv.value, int) and not isinstance(dv.value, bool):
+                return Lin(dv.value)
+        return v
+
+    b = val(bufp)
+    o: t.Any = Lin(0)
+    if isinstance(off, ast.Constant):
+        o = Lin(off.value)
+    elif isinstance(off, ast.Name):
+        o = val(off.id)
+    if not isinstance(o, Lin):
+        return None
+    if isinstance(b, SBuf):
+        b = SView(f"buf#{b.bid}", Lin(0), b.size)
+    if isinstance(b, SView):
+        if o.is_const() and o.const < 0:
+            return None
+        return SView(b.src, b.lo + o, b.hi)
+    return None
 
 
 def reassembly(repo: Repo, chk: Check, f: Func, helpers: t.Dict[str, str]) -> None:
@@ -184,7 +259,7 @@ def reassembly(repo: Repo, chk: Check, f: Func, helpers: t.Dict[str, str]) -> No
                         chk.ob("O1", Site.of(f, node), False, f"reply bytes [{idx.lo!r}:{idx.hi!r}] come from {val!r}, which is not a complete transport read")
             for c in calls:
                 if c.func is not None and c.func.qual in helpers:
-                    a = c.arg(0)
+                    a = filled_window(c)
                     if isinstance(a, SView) and a.src == src and c.node.lineno > hcall.node.lineno:
                         cov.append((a.lo, a.hi, c.func.name))
             cov.sort(key=lambda x: (x[0].const if x[0].is_const() else 1 << 30))
@@ -229,7 +304,7 @@ def received_exactly(harg: t.Any, hsz: Lin, calls: t.List[t.Any], before: t.Any,
             if c is before:
                 break
             if c.func is not None and c.func.qual in helpers:
-                a = c.arg(0)
+                a = filled_window(c)
                 if isinstance(a, SView) and a.src == f"buf#{harg.bid}" and a.lo == 0 and a.hi == harg.size:
                     return True, f"header buffer of {hsz!r} bytes filled by {c.func.name} before decoding"
         return False, "header buffer is decoded without being completely filled first"
